@@ -6,6 +6,10 @@ Mst: helper lemmas, part 1 – connectivity, component labels, component countin
 -/
 namespace Solvor.Mst
 
+/-- the constants read from `solvor/mst.py` are the ones the proofs are about -/
+theorem breakOff_eq : breakOff = 1 := by decide
+theorem shortOff_eq : shortOff = 1 := by decide
+
 /-! ### `Conn` -/
 
 theorem Conn.trans {F : List Edge} {a b c : Nat} (h₁ : Conn F a b) (h₂ : Conn F b c) : Conn F a c := by
